@@ -194,6 +194,35 @@ def build_driver():
     return rc == 0, out[-3000:]
 
 
+def run_cli(cmd, cpu_s=8.0, wall_factor=15):
+    """run a command; give up when it has used `cpu_s` seconds of CPU (a hang burns CPU; a process that is merely
+    starved by other load does not) or, as a last resort, `wall_factor` times that in wall time.
+    -> (returncode | "timeout", stdout bytes, stderr bytes)"""
+    import tempfile
+    with tempfile.TemporaryFile() as fo, tempfile.TemporaryFile() as fe:
+        p = subprocess.Popen(cmd, stdout=fo, stderr=fe)
+        t0 = time.time()
+        rc = None
+        while True:
+            rc = p.poll()
+            if rc is not None:
+                break
+            try:
+                f = open("/proc/%d/stat" % p.pid).read().rsplit(")", 1)[1].split()
+                cpu = (int(f[11]) + int(f[12])) / 100.0
+            except (OSError, IndexError, ValueError):
+                cpu = 0.0
+            if cpu > cpu_s or time.time() - t0 > cpu_s * wall_factor:
+                p.kill()
+                p.wait()
+                rc = "timeout"
+                break
+            time.sleep(0.01)
+        fo.seek(0)
+        fe.seek(0)
+        return rc, fo.read(), fe.read()
+
+
 # ---------------------------------------------------------------------------------------------
 # running commands through implementation and model
 # ---------------------------------------------------------------------------------------------
